@@ -30,6 +30,43 @@ def main(tier: str) -> int:
         trans += gst["transitions"]
     cases, stats = campaign.writer_campaign(tier, seed, parse_entries=("flat", "to_graph"))
     cases += campaign.empty_sequence_cases("generic")       # "any sequence" includes the empty one
+    # one SerializerOptions object used for two streams that are written alternately, statement by statement (an application-wide options constant):
+    # each file must hold exactly its own statements
+    import io  # noqa: PLC0415
+    from .. import impl, wire  # noqa: PLC0415
+
+    I_ = lambda x: ("iri", x)  # noqa: E731
+    for fs in (250, 3):
+        for quads in (False, True):
+            opts = impl.make_options(impl.default_cfg(integ="generic", sclass=("quad" if quads else "triple"), ltype=(2 if quads else 1), frame_size=fs, preset=(8, 3, 2)))
+            two = []
+            for k in range(2):
+                st_ = impl.make_stream(impl.default_cfg(integ="generic", sclass=("quad" if quads else "triple")), opts)
+                st_.enroll()
+                two.append({"stream": st_, "out": io.BytesIO(), "stmts": [(I_(f"http://f{k}.example/s{j}"), I_(f"http://f{k}.example/p"), ("lit", f"{k}-{j}", "", ""))
+                                                                         + ((I_(f"http://f{k}.example/g"),) if quads else ()) for j in range(7)]})
+            exc = None
+            try:
+                for j in range(7):
+                    for w in two:
+                        tt = [terms.to_generic(t) for t in w["stmts"][j]]
+                        fr = w["stream"].quad(tt) if quads else w["stream"].triple(tt)
+                        if fr is not None:
+                            impl.write_delimited(fr, w["out"])
+                for w in two:
+                    last = w["stream"].flow.to_stream_frame()
+                    if last is not None:
+                        impl.write_delimited(last, w["out"])
+            except Exception as ex:  # noqa: BLE001
+                exc = f"{type(ex).__name__}: {ex}"
+            for k, w in enumerate(two):
+                case = campaign.Case({"universe": "shared-options-object", "entry": "stepwise-two-streams", "sub": "none", "delimited": True, "frame_size": fs, "beh": k}, w["stmts"])
+                case.replay = {"statements": w["stmts"], "frame_size": fs, "other_stream_written_alternately": True}
+                case.data, case.exc = (w["out"].getvalue() if exc is None else None), exc
+                if case.data:
+                    for pe in ("flat",):
+                        case.back[pe] = campaign._safe_parse("generic", case.data, pe)
+                cases.append(case)
     judged = 0
     samples = []
     for case in cases:
